@@ -133,6 +133,42 @@ func Split(r *rand.Rand, c *cfg.Config, mode int) []cfg.File {
 	return files
 }
 
+// AddEmpties puts explicit empty collections (arguments: [], calls: [], tags: [], fields: {}) into
+// fragments LATER than the one holding the real content: "non-empty arguments replace", appended
+// lists and united mappings must not be affected by them.
+func AddEmpties(r *rand.Rand, parts []cfg.Config) {
+	for p := 0; p+1 < len(parts); p++ {
+		for _, s := range parts[p].Services {
+			q := p + 1 + r.Intn(len(parts)-p-1)
+			var d *cfg.Service
+			for i := range parts[q].Services {
+				if parts[q].Services[i].Name == s.Name {
+					d = &parts[q].Services[i]
+				}
+			}
+			if d == nil {
+				if r.Intn(3) != 0 {
+					continue
+				}
+				parts[q].Services = append(parts[q].Services, cfg.Service{Name: s.Name})
+				d = &parts[q].Services[len(parts[q].Services)-1]
+			}
+			if len(s.Args) > 0 && d.Args == nil && r.Intn(2) == 0 {
+				d.Args = []cfg.Val{}
+			}
+			if len(s.Calls) > 0 && d.Calls == nil && r.Intn(3) == 0 {
+				d.Calls = []cfg.Call{}
+			}
+			if len(s.Tags) > 0 && d.Tags == nil && r.Intn(3) == 0 {
+				d.Tags = []cfg.Tag{}
+			}
+			if len(s.Fields) > 0 && d.Fields == nil && r.Intn(3) == 0 {
+				d.Fields = []cfg.KV{}
+			}
+		}
+	}
+}
+
 // AddDecoys plants values in earlier fragments that a later fragment overrides (scalars,
 // map keys, arguments), so that "later wins / non-empty arguments replace" is exercised.
 // The merge of the fragments is unchanged.
